@@ -1,6 +1,6 @@
 (* C05 - Serialize / initialize / deserialize round-trip with exact size accounting. Statements only. *)
 From SF Require Import Base.Prelude Unsized.Types Unsized.Parse Unsized.Machine Unsized.Ops Unsized.Proofs.EncodeParse.
-From SF Require Import Unsized.Proofs.Layout Unsized.Proofs.Init.
+From SF Require Import Unsized.Proofs.Layout Unsized.Proofs.Init Unsized.Proofs.InitKinds.
 
 (* serializing produces exactly the announced number of bytes, for every shape and every well-formed value *)
 Theorem C05_encode_size : forall t v, wf t v = true -> zlen (encode t v) = byte_size t v.
@@ -61,6 +61,20 @@ Theorem C05_init_array_exact :
     init_bytes (TList c lw) kind = Ok (encode (TList c lw) (VList (repeat (repeat 1 (fsize c)) (Z.to_nat n)))) /\
     init_size (TList c lw) kind = zlen (encode (TList c lw) (VList (repeat (repeat 1 (fsize c)) (Z.to_nat n)))).
 Proof. exact init_list_array. Qed.
+
+(* EVERY initializer of the family (kind 0 = DefaultInit, the array initializers of lists, [1;1;1] for RemainingBytes):
+   when it succeeds (`ival it kind = Some dv`) it writes exactly the announced INIT_BYTES, they are the serialization of
+   the value it creates, and deserializing them gives that value back with exactly that extent *)
+Theorem C05_every_initializer_exact :
+  forall ovf it kind dv,
+    ty_ok true it = true -> ival it kind = Some dv -> ones_ok it kind = true ->
+    exists bs, init_bytes it kind = Ok bs /\ zlen bs = init_size it kind /\ bs = encode it dv /\
+               parse ovf it bs = Ok (dv, init_size it kind).
+Proof.
+  intros ovf it kind dv Hok Hi Ho. destruct (ival_init it kind dv Hi Ho) as (Hb & Hs & Hwf).
+  exists (encode it dv). split; [exact Hb|]. split; [symmetry; exact Hs|]. split; [reflexivity|].
+  rewrite (parse_encode ovf it dv Hok Hwf), Hs, (encode_size it dv Hwf). reflexivity.
+Qed.
 
 Theorem C05_init_array_too_long :
   forall c lw kind n, (kind = 1 /\ n = 3) \/ (kind = 2 /\ n = 300) -> 256 ^ Z.of_nat lw <= n ->
